@@ -1082,6 +1082,16 @@ class awkward_transform:
                     # if the function returns a single array, wrap it in a tuple
                     if not isinstance(out_numpys, tuple):
                         out_numpys = (out_numpys,)
+                    # a coordinate passed through from a non-array argument is a scalar: broadcast it
+                    nplike = layouts[0].backend.nplike
+                    out_numpys = tuple(
+                        nplike.full_like(
+                            layouts[0].data, x, dtype=numpy.asarray(x).dtype
+                        )
+                        if isinstance(x, (int, float, numpy.number))
+                        else x
+                        for x in out_numpys
+                    )
                     # propagate parameters
                     out_params = parameters_factory(
                         tuple(map(operator.attrgetter("parameters"), layouts)),
